@@ -75,7 +75,9 @@ pub fn strftime(ts: time::OffsetDateTime, fmt: &str) -> Result<String, DateForma
             () => {{
                 let next = fmt_iter.next();
                 if let Some(nxt) = next {
-                    cursor = nxt.0;
+                    // index of the last byte of the consumed char, so that
+                    // `fmt[fmt_pos..=cursor]` always ends on a char boundary
+                    cursor = nxt.0 + nxt.1.len_utf8() - 1;
                 }
                 next
             }};
